@@ -1,7 +1,8 @@
 package main
 
 // C01M — mechanism part of C01: lowering of conditions / logical operators / relational operators /
-// assignments to locals (compile.go) and constant folding vs run-time arithmetic.
+// arithmetic, unary minus, length, concatenation / assignments to locals (compile.go) and constant folding vs
+// run-time arithmetic.
 //
 //   (a) bytecode equality: programs of a small statement language around condition trees are rendered to Lua,
 //       compiled with the REAL compiler (parse.Parse + lua.Compile) and the proto (code words, constants,
@@ -29,7 +30,7 @@ import (
 // ---------- AST ----------
 
 type cnd struct {
-	k    string // T F N n s l g not and or lt gt le ge eq ne
+	k    string // T F N n s l g not and or lt gt le ge eq ne @add @sub @mul @div @mod @pow @cat @unm @len
 	n    int    // n: value, l: register, g: id
 	s    string // s: text
 	a, b *cnd
@@ -51,8 +52,8 @@ func (c *cnd) toks(out *[]string) {
 		*out = append(*out, c.k+strconv.Itoa(c.n))
 	case "s":
 		*out = append(*out, "s"+c.s)
-	case "not":
-		*out = append(*out, "not")
+	case "not", "@unm", "@len":
+		*out = append(*out, c.k)
 		c.a.toks(out)
 	default:
 		*out = append(*out, c.k)
@@ -136,9 +137,9 @@ func (r *tokRd) cond() *cnd {
 	switch t {
 	case "T", "F", "N":
 		return &cnd{k: t}
-	case "not":
-		return &cnd{k: "not", a: r.cond()}
-	case "and", "or", "lt", "gt", "le", "ge", "eq", "ne":
+	case "not", "@unm", "@len":
+		return &cnd{k: t, a: r.cond()}
+	case "and", "or", "lt", "gt", "le", "ge", "eq", "ne", "@add", "@sub", "@mul", "@div", "@mod", "@pow", "@cat":
 		a := r.cond()
 		b := r.cond()
 		return &cnd{k: t, a: a, b: b}
@@ -210,7 +211,41 @@ func parseMProg(toks []string) (p *mprog, rest []string) {
 
 // ---- renderer ----
 
-func (c *cnd) lua() string {
+var c01binSym = map[string]string{"lt": "<", "gt": ">", "le": "<=", "ge": ">=", "eq": "==", "ne": "~=",
+	"@add": "+", "@sub": "-", "@mul": "*", "@div": "/", "@mod": "%", "@pow": "^", "@cat": ".."}
+
+func (c *cnd) lua() string { return c.luaT(false) }
+
+// luaT renders the tree fully parenthesised (parentheses produce no AST node).  twin: the instrumented twin of the
+// program — every operand of `..` goes through the identity function __c and every operand of an arithmetic
+// operator through __a (host functions that only look at their argument; see runTwinUnsafe).
+func (c *cnd) luaT(twin bool) string {
+	w := func(f string, x *cnd) string {
+		if twin {
+			return f + "((" + x.luaT(twin) + "))"
+		}
+		return "(" + x.luaT(twin) + ")"
+	}
+	switch c.k {
+	case "@unm":
+		return "-" + w("__a", c.a)
+	case "@len":
+		return "#(" + c.a.luaT(twin) + ")"
+	case "@add", "@sub", "@mul", "@div", "@mod", "@pow":
+		return w("__a", c.a) + " " + c01binSym[c.k] + " " + w("__a", c.b)
+	case "@cat":
+		return w("__c", c.a) + " .. " + w("__c", c.b)
+	}
+	if twin {
+		switch c.k {
+		case "not":
+			return "not (" + c.a.luaT(true) + ")"
+		case "and", "or":
+			return "(" + c.a.luaT(true) + ") " + c.k + " (" + c.b.luaT(true) + ")"
+		case "lt", "gt", "le", "ge", "eq", "ne":
+			return "(" + c.a.luaT(true) + ") " + c01binSym[c.k] + " (" + c.b.luaT(true) + ")"
+		}
+	}
 	switch c.k {
 	case "T":
 		return "true"
@@ -235,46 +270,73 @@ func (c *cnd) lua() string {
 	return "(" + c.a.lua() + ") " + op + " (" + c.b.lua() + ")"
 }
 
-func renderBlock(b []*stm, top int, ind string, sb *strings.Builder) {
+func renderBlock(b []*stm, top int, ind string, sb *strings.Builder, twin bool) {
 	for _, s := range b {
 		switch s.k {
 		case "if":
-			sb.WriteString(ind + "if " + s.c.lua() + " then\n")
-			renderBlock(s.b1, top, ind+"  ", sb)
+			sb.WriteString(ind + "if " + s.c.luaT(twin) + " then\n")
+			renderBlock(s.b1, top, ind+"  ", sb, twin)
 			if len(s.b2) > 0 {
 				sb.WriteString(ind + "else\n")
-				renderBlock(s.b2, top, ind+"  ", sb)
+				renderBlock(s.b2, top, ind+"  ", sb, twin)
 			}
 			sb.WriteString(ind + "end\n")
 		case "while":
-			sb.WriteString(ind + "while " + s.c.lua() + " do\n")
-			renderBlock(s.b1, top, ind+"  ", sb)
+			sb.WriteString(ind + "while " + s.c.luaT(twin) + " do\n")
+			renderBlock(s.b1, top, ind+"  ", sb, twin)
 			sb.WriteString(ind + "end\n")
 		case "repeat":
 			sb.WriteString(ind + "repeat\n")
 			// the until-condition sees the locals of the body; names are positional, so nothing to track here
-			renderBlock(s.b1, top, ind+"  ", sb)
-			sb.WriteString(ind + "until " + s.c.lua() + "\n")
+			renderBlock(s.b1, top, ind+"  ", sb, twin)
+			sb.WriteString(ind + "until " + s.c.luaT(twin) + "\n")
 		case "ret":
 			var xs []string
 			for _, c := range s.rhs {
-				xs = append(xs, c.lua())
+				xs = append(xs, c.luaT(twin))
 			}
 			sb.WriteString(ind + "return " + strings.Join(xs, ", ") + "\n")
 		case "local":
-			sb.WriteString(ind + "local l" + strconv.Itoa(top) + " = " + s.c.lua() + "\n")
+			sb.WriteString(ind + "local l" + strconv.Itoa(top) + " = " + s.c.luaT(twin) + "\n")
 			top++
 		case "assign":
 			var xs []string
 			for _, c := range s.rhs {
-				xs = append(xs, c.lua())
+				xs = append(xs, c.luaT(twin))
 			}
 			sb.WriteString(ind + strings.Join(s.targets, ", ") + " = " + strings.Join(xs, ", ") + "\n")
 		}
 	}
 }
 
-func (p *mprog) lua() string {
+func (p *mprog) lua() string { return p.luaT(false) }
+
+// hasOps: does the program contain an operator whose run-time result depends on number<->string conversion?
+func (c *cnd) hasConv() bool {
+	if c == nil {
+		return false
+	}
+	if strings.HasPrefix(c.k, "@") && c.k != "@len" {
+		return true
+	}
+	return c.a.hasConv() || c.b.hasConv()
+}
+
+func blockHasConv(b []*stm) bool {
+	for _, s := range b {
+		if s.c.hasConv() || blockHasConv(s.b1) || blockHasConv(s.b2) {
+			return true
+		}
+		for _, c := range s.rhs {
+			if c.hasConv() {
+				return true
+			}
+		}
+	}
+	return false
+}
+
+func (p *mprog) luaT(twin bool) string {
 	var sb strings.Builder
 	if p.nlocals > 0 {
 		var ns []string
@@ -283,7 +345,7 @@ func (p *mprog) lua() string {
 		}
 		sb.WriteString("local " + strings.Join(ns, ", ") + " = ...\n")
 	}
-	renderBlock(p.body, p.nlocals, "", &sb)
+	renderBlock(p.body, p.nlocals, "", &sb, twin)
 	return sb.String()
 }
 
@@ -334,6 +396,9 @@ func decWire(tok string) lua.LValue {
 	case tok[0] == 'i':
 		f, _ := strconv.ParseFloat(tok[1:], 64)
 		return lua.LNumber(f)
+	case tok[0] == 'f':
+		u, _ := strconv.ParseUint(tok[1:], 10, 64)
+		return lua.LNumber(math.Float64frombits(u))
 	case tok[0] == 's':
 		b, _ := hexDecode(tok[1:])
 		return lua.LString(string(b))
@@ -358,12 +423,52 @@ func hexDecode(s string) ([]byte, error) {
 // programs loop does not turn the check into hours.
 var mechTimeouts int32
 
+// runs not compared because they convert an unsafe number to a string / a long string to a number (see runTwinUnsafe)
+var mechSkippedConv int64
+
 const mechMaxTimeouts = 12
 
+// runTwinUnsafe runs the instrumented twin of a program (same valuation) and reports whether the run converts
+//   * a number that is not an integral value below 2^53 to a string (operand of `..`), or
+//   * a string longer than 15 bytes to a number (operand of an arithmetic operator):
+// the texts of such conversions (shortest round-trip formatting, correctly rounded reading of long numerals) are
+// outside what the run tie's concrete value domain defines (they belong to C16), so that run is not compared.
+func runTwinUnsafe(src string, lv, gv []string) bool {
+	unsafe := false
+	pre := func(L *lua.LState) {
+		L.SetGlobal("__c", L.NewFunction(func(L *lua.LState) int {
+			v := L.Get(1)
+			if n, ok := v.(lua.LNumber); ok {
+				f := float64(n)
+				if math.IsNaN(f) || math.IsInf(f, 0) || f != math.Trunc(f) || math.Abs(f) >= 9007199254740992 {
+					unsafe = true
+				}
+			}
+			L.Push(v)
+			return 1
+		}))
+		L.SetGlobal("__a", L.NewFunction(func(L *lua.LState) int {
+			v := L.Get(1)
+			if s, ok := v.(lua.LString); ok && len(s) > 15 {
+				unsafe = true
+			}
+			L.Push(v)
+			return 1
+		}))
+	}
+	runRealWith(src, lv, gv, pre)
+	return unsafe
+}
+
 // runReal runs the chunk with the given locals (chunk arguments) and atoms (globals g0..).
-func runReal(src string, lv, gv []string) string {
+func runReal(src string, lv, gv []string) string { return runRealWith(src, lv, gv, nil) }
+
+func runRealWith(src string, lv, gv []string, pre func(L *lua.LState)) string {
 	L := lua.NewState(lua.Options{SkipOpenLibs: true})
 	defer L.Close()
+	if pre != nil {
+		pre(L)
+	}
 	ctx, cancel := context.WithTimeout(context.Background(), 700*time.Millisecond)
 	defer cancel()
 	L.SetContext(ctx)
@@ -467,6 +572,10 @@ func c01execMech(ops []Op) []string {
 			r := runReal(p.lua(), lv, gv)
 			if strings.HasPrefix(r, "GOPANIC") || r == "TIMEOUT" || r == "syntax" {
 				out = append(out, "X "+strings.ReplaceAll(r, " ", "_")+" => "+strings.Join(a, " "))
+				continue
+			}
+			if blockHasConv(p.body) && runTwinUnsafe(p.luaT(true), lv, gv) {
+				atomic.AddInt64(&mechSkippedConv, 1)
 				continue
 			}
 			out = append(out, "C01M "+strings.Join(a, " ")+" => "+r)
@@ -735,6 +844,144 @@ func valuations(r *Rng, n int, k int) [][]string {
 	return res
 }
 
+// valuations of the arithmetic families: mostly numbers (small integers, a negative one, a fraction) and
+// numeric / non-numeric strings, so that most runs compute instead of raising
+var mechNumValues = []string{"i0", "i1", "i2", "i3", "i5", "i-1", "i-3", "f4602678819172646912", "i7"} // 0.5
+var mechStrValues = []string{"s61", "s62", "s3130"}                                                      // "a" "b" "10"
+
+func valuationsX(r *Rng, n int, k int) [][]string {
+	var res [][]string
+	for i := 0; i < k; i++ {
+		v := make([]string, n)
+		regime := r.Intn(10)
+		for j := range v {
+			switch {
+			case regime < 5: // numbers only
+				v[j] = Pick(r, mechNumValues)
+			case regime < 7: // numbers and strings
+				if r.Chance(50) {
+					v[j] = Pick(r, mechNumValues)
+				} else {
+					v[j] = Pick(r, mechStrValues)
+				}
+			case regime < 8: // strings only
+				v[j] = Pick(r, mechStrValues)
+			default: // everything (errors)
+				v[j] = Pick(r, append(append([]string{"nil", "F", "T"}, mechNumValues...), mechStrValues...))
+			}
+		}
+		res = append(res, v)
+	}
+	return res
+}
+
+func mechCaseX(r *Rng, p *mprog, nruns int) []Op {
+	toks := p.toks()
+	var ops []Op
+	lvs := valuationsX(r, p.nlocals, nruns)
+	gvs := valuationsX(r, nAtoms, nruns)
+	for i := 0; i < nruns; i++ {
+		a := append([]string{"run"}, toks...)
+		a = append(a, ";", "L")
+		a = append(a, lvs[i]...)
+		a = append(a, ";", "G")
+		a = append(a, gvs[i]...)
+		ops = append(ops, Op{Args: a})
+	}
+	ops = append(ops, Op{Args: append([]string{"code"}, toks...)})
+	return ops
+}
+
+func cn(k string, a, b *cnd) *cnd { return &cnd{k: k, a: a, b: b} }
+func str(s string) *cnd           { return &cnd{k: "s", s: s} }
+
+// operand classes of the bounded-exhaustive arithmetic families: every way an operand reaches an instruction
+// (local → MOVE propagated, numeral / string / folded sub-tree → LOADK propagated as RK, global / nested operator →
+// own temporary, logical operator → no propagation, relational / not / # → LOADBOOL / NOT / LEN tail)
+func arithOperandClasses() []*cnd {
+	return []*cnd{
+		loc(0), loc(1), glob(0), num(2), num(3), str("a"), str("10"), {k: "N"}, {k: "T"},
+		cn("@add", num(2), num(3)),       // folded constant
+		cn("@unm", num(2), nil),          // folded negative constant
+		cn("@div", num(1), num(0)),       // folded inf
+		cn("@div", num(0), num(0)),       // folded NaN (ConstIndex never finds a NaN again)
+		cn("@unm", num(0), nil),          // folded -0 (a constant different from 0)
+		cn("@mul", loc(1), num(2)),       // nested arithmetic
+		cn("@unm", loc(1), nil),          // unary minus on a local
+		cn("@len", loc(1), nil),          // length
+		cn("@cat", loc(1), str("a")),     // concatenation
+		cn("and", loc(0), loc(1)),        // logical operators: value through compileLogicalOpExpr
+		cn("or", loc(0), num(1)),
+		cn("not", loc(0), nil),
+		cn("lt", loc(1), num(2)),         // relational
+	}
+}
+
+func enumArithTrees() (bin []*cnd, un []*cnd, chains []*cnd) {
+	cl := arithOperandClasses()
+	for _, op := range []string{"@add", "@sub", "@mul", "@div", "@mod", "@cat", "lt", "eq", "ge"} {
+		for _, a := range cl {
+			for _, b := range cl {
+				bin = append(bin, cn(op, a, b))
+			}
+		}
+	}
+	for _, a := range cl {
+		for _, e := range []int{0, 1, 2, 3} {
+			bin = append(bin, cn("@pow", a, num(e)))
+		}
+	}
+	for _, op := range []string{"@unm", "@len", "not"} {
+		for _, a := range cl {
+			un = append(un, cn(op, a, nil))
+			un = append(un, cn(op, cn(op, a, nil), nil))
+		}
+	}
+	// chains of concatenations (both nestings, length 3 and 4) and mixed precedence shapes
+	small := []*cnd{loc(0), glob(0), str("a"), num(1), cn("@add", loc(1), num(1))}
+	for _, a := range small {
+		for _, b := range small {
+			for _, c := range small {
+				chains = append(chains, cn("@cat", a, cn("@cat", b, c)), cn("@cat", cn("@cat", a, b), c))
+				for _, op1 := range []string{"@add", "@mul", "@sub"} {
+					for _, op2 := range []string{"@add", "@mul", "@cat"} {
+						chains = append(chains, cn(op1, a, cn(op2, b, c)), cn(op1, cn(op2, a, b), c))
+					}
+				}
+			}
+		}
+	}
+	tiny := []*cnd{loc(0), str("a"), num(1)}
+	for _, a := range tiny {
+		for _, b := range tiny {
+			for _, c := range tiny {
+				for _, d := range tiny {
+					chains = append(chains, cn("@cat", a, cn("@cat", b, cn("@cat", c, d))),
+						cn("@cat", cn("@cat", a, b), cn("@cat", c, d)),
+						cn("@cat", a, cn("@cat", cn("@cat", b, c), d)))
+				}
+			}
+		}
+	}
+	return
+}
+
+// constant-pool window: n distinct filler constants, then arithmetic / comparison / concatenation whose constant
+// operands get the pool indices n, n+1: around n = 254..257 PropagateKMV stops turning the LOADK into an RK operand
+// (cindex <= opMaxIndexRk).
+func kWindowProg(n int) *mprog {
+	var body []*stm
+	for i := 0; i < n; i++ {
+		body = append(body, &stm{k: "assign", targets: []string{"g0"}, rhs: []*cnd{num(1000 + i)}})
+	}
+	body = append(body,
+		&stm{k: "assign", targets: []string{"l1"}, rhs: []*cnd{cn("@add", loc(0), num(7))}},
+		&stm{k: "assign", targets: []string{"l2"}, rhs: []*cnd{cn("@mul", num(9), loc(0))}},
+		&stm{k: "if", c: cn("lt", loc(0), num(11)), b1: []*stm{retS(loc(0), loc(1), loc(2), cn("@sub", num(7), num(9)))}},
+		retS(loc(0), loc(1), loc(2)))
+	return &mprog{nlocals: 3, body: body}
+}
+
 func mechCase(r *Rng, p *mprog, nruns int) []Op {
 	toks := p.toks()
 	// the runs come first: a property-level failure (SPEC) is then reported with its concrete input before the
@@ -755,7 +1002,50 @@ func mechCase(r *Rng, p *mprog, nruns int) []Op {
 }
 
 // random condition tree; top = number of locals in scope
-func genCond(r *Rng, depth, top int) *cnd {
+func genCond(r *Rng, depth, top int) *cnd { return genCondX(r, depth, top, 0) }
+
+var c01arithBin = []string{"@add", "@sub", "@mul", "@div", "@mod", "@add", "@sub", "@mul"}
+
+// genArithNode: an arithmetic / unary minus / length / concatenation node over sub-trees of the full language.
+// The exponent of `^` is always one of the numerals 0..3 (see the engine's `powF`).
+func genArithNode(r *Rng, depth, top, ar int) *cnd {
+	sub := func() *cnd { return genCondX(r, depth-1, top, ar) }
+	switch c := r.Intn(100); {
+	case c < 52:
+		return &cnd{k: Pick(r, c01arithBin), a: sub(), b: sub()}
+	case c < 58:
+		return &cnd{k: "@pow", a: sub(), b: num(r.Intn(4))}
+	case c < 70:
+		return &cnd{k: "@unm", a: sub()}
+	case c < 78:
+		return &cnd{k: "@len", a: sub()}
+	default:
+		// chains of concatenations in both nestings
+		if r.Chance(50) {
+			return &cnd{k: "@cat", a: sub(), b: &cnd{k: "@cat", a: sub(), b: sub()}}
+		}
+		return &cnd{k: "@cat", a: sub(), b: sub()}
+	}
+}
+
+// genCondX: ar = percentage of inner nodes (and share of leaves) drawn from the arithmetic family; ar = 0 is the
+// generator of the condition-only families (unchanged).
+func genCondX(r *Rng, depth, top, ar int) *cnd {
+	if ar > 0 && (depth <= 1 || r.Chance(18)) && r.Chance(55) {
+		switch c := r.Intn(100); {
+		case c < 40 && top > 0:
+			return loc(r.Intn(top))
+		case c < 55:
+			return glob(r.Intn(nAtoms))
+		case c < 85:
+			return num(Pick(r, []int{0, 1, 2, 3, 5, 7, 10}))
+		default:
+			return &cnd{k: "s", s: Pick(r, []string{"a", "b", "10"})}
+		}
+	}
+	if ar > 0 && depth > 1 && r.Chance(ar) {
+		return genArithNode(r, depth, top, ar)
+	}
 	if depth <= 1 || r.Chance(18) {
 		switch c := r.Intn(100); {
 		case c < 35 && top > 0:
@@ -776,39 +1066,43 @@ func genCond(r *Rng, depth, top int) *cnd {
 	}
 	switch c := r.Intn(100); {
 	case c < 16:
-		return &cnd{k: "not", a: genCond(r, depth-1, top)}
+		return &cnd{k: "not", a: genCondX(r, depth-1, top, ar)}
 	case c < 48:
-		return &cnd{k: "and", a: genCond(r, depth-1, top), b: genCond(r, depth-1, top)}
+		return &cnd{k: "and", a: genCondX(r, depth-1, top, ar), b: genCondX(r, depth-1, top, ar)}
 	case c < 80:
-		return &cnd{k: "or", a: genCond(r, depth-1, top), b: genCond(r, depth-1, top)}
+		return &cnd{k: "or", a: genCondX(r, depth-1, top, ar), b: genCondX(r, depth-1, top, ar)}
 	default:
 		op := Pick(r, []string{"lt", "gt", "le", "ge", "eq", "ne", "eq", "ne"})
 		d := 1
-		if r.Chance(30) {
+		if r.Chance(30) || (ar > 0 && r.Chance(50)) {
 			d = depth - 1
 		}
-		return &cnd{k: op, a: genCond(r, d, top), b: genCond(r, d, top)}
+		return &cnd{k: op, a: genCondX(r, d, top, ar), b: genCondX(r, d, top, ar)}
 	}
 }
 
 // random block; l0 is the loop flag: every loop body ends with `if l0 then return … end; l0 = true`
 func genBlock(r *Rng, depth int, top int, n int, mustRet bool) []*stm {
+	return genBlockX(r, depth, top, n, mustRet, 0)
+}
+
+func genBlockX(r *Rng, depth int, top int, n int, mustRet bool, ar int) []*stm {
 	var b []*stm
 	for i := 0; i < n; i++ {
 		switch c := r.Intn(100); {
 		case c < 22 && depth > 0:
-			s := &stm{k: "if", c: genCond(r, r.Range(1, 4), top), b1: genBlock(r, depth-1, top, r.Range(0, 2), false)}
+			s := &stm{k: "if", c: genCondX(r, r.Range(1, 4), top, ar), b1: genBlockX(r, depth-1, top, r.Range(0, 2), false, ar)}
 			if r.Chance(60) {
-				s.b2 = genBlock(r, depth-1, top, r.Range(1, 2), false)
+				s.b2 = genBlockX(r, depth-1, top, r.Range(1, 2), false, ar)
 			}
 			b = append(b, s)
 		case c < 32 && depth > 0:
-			body := genBlock(r, depth-1, top, r.Range(0, 2), false)
+			body := genBlockX(r, depth-1, top, r.Range(0, 2), false, ar)
 			body = append(body, loopGuard(top)...)
-			b = append(b, &stm{k: "while", c: genCond(r, r.Range(1, 4), top), b1: body})
+			b = append(b, &stm{k: "while", c: genCondX(r, r.Range(1, 4), top, ar), b1: body})
 		case c < 42 && depth > 0:
 			nb := r.Range(0, 2)
-			body := genBlock(r, depth-1, top, nb, false)
+			body := genBlockX(r, depth-1, top, nb, false, ar)
 			// locals declared in the body are visible to the until-condition
 			t2 := top
 			for _, s := range body {
@@ -817,12 +1111,12 @@ func genBlock(r *Rng, depth int, top int, n int, mustRet bool) []*stm {
 				}
 			}
 			body = append(body, loopGuard(t2)...)
-			b = append(b, &stm{k: "repeat", b1: body, c: genCond(r, r.Range(1, 4), t2)})
+			b = append(b, &stm{k: "repeat", b1: body, c: genCondX(r, r.Range(1, 4), t2, ar)})
 		case c < 55 && top < 8:
-			b = append(b, &stm{k: "local", c: genCond(r, r.Range(1, 4), top)})
+			b = append(b, &stm{k: "local", c: genCondX(r, r.Range(1, 4), top, ar)})
 			top++
 		default:
-			b = append(b, genAssign(r, top, 3))
+			b = append(b, genAssignX(r, top, 3, ar))
 		}
 	}
 	if mustRet {
@@ -847,7 +1141,9 @@ func loopGuard(top int) []*stm {
 }
 
 // assignment with distinct targets (locals other than the loop flag l0, globals) and condition-tree right-hand sides
-func genAssign(r *Rng, top int, maxDepth int) *stm {
+func genAssign(r *Rng, top int, maxDepth int) *stm { return genAssignX(r, top, maxDepth, 0) }
+
+func genAssignX(r *Rng, top int, maxDepth int, ar int) *stm {
 	var pool []string
 	for i := 1; i < top; i++ {
 		pool = append(pool, "l"+strconv.Itoa(i))
@@ -879,10 +1175,10 @@ func genAssign(r *Rng, top int, maxDepth int) *stm {
 	var rhs []*cnd
 	for i := 0; i < m; i++ {
 		d := 1
-		if r.Chance(35) {
+		if r.Chance(35) || (ar > 0 && r.Chance(40)) {
 			d = r.Range(2, maxDepth)
 		}
-		rhs = append(rhs, genCond(r, d, top))
+		rhs = append(rhs, genCondX(r, d, top, ar))
 	}
 	return &stm{k: "assign", targets: tg, rhs: rhs}
 }
@@ -1030,6 +1326,10 @@ func runC01M(run *Run) {
 	}
 	thorough := run.Tier == "thorough"
 	run.Rule = "TESTS (labelled): (a) bytecode equality real compiler vs Lean compile model, word for word incl. constants and NumUsedRegisters: " +
+		"[extended fragment] arithmetic + - * / % ^, unary minus, #, .. chains, relational operators over arbitrary operands, all mixed with and/or/not: " +
+		"bounded-exhaustive (22 operand classes)^2 x {+,-,*,/,%,..,<,==,>=} + ^{0..3}, unary x2, chains of 3/4 concatenations and mixed-precedence shapes, each x 12 contexts; " +
+		"random programs / deep expressions over the full expression language; constant-pool windows around the RK limit (254..258 constants); " +
+		"[original fragment] " +
 		"bounded-exhaustive condition trees (depth<=2 over a rich alphabet incl. relational operators, depth<=3 over {l0,g0,true,nil,1} x {not,and,or}) x 12 contexts " +
 		"(if/else, if, while, repeat, local x=, existing local = (also operand), global =, return, last/first of a multiple assignment, operand of not/==, loop with nested ifs); " +
 		"every assignment shape k,m<=3(4) over {l0,l1,l2,g0} x {l0,l1,l2,7,nil}; random nested programs (depth<=3, conditions depth<=5); " +
@@ -1038,12 +1338,14 @@ func runC01M(run *Run) {
 		"quick samples the exhaustive families with the seed; thorough runs them completely. distinct = distinct value-erased program skeletons"
 	run.Assume = []string{
 		"model = /repo HEAD + fixes/C01-extra-rhs-after-direct-store.diff + fixes/C01-jump-threading-patched-target.diff",
-		"number constants in generated conditions are small non-negative integers (no NaN constants: ConstIndex never dedupes NaN)",
+		"numerals in generated programs are small non-negative integers; folded constants may be negative, fractional, -0, inf or NaN",
+		"the exponent of ^ is always one of the numerals 0..3 (the engine transcribes Go's math.Pow for those; libm pow otherwise)",
+		"runs that convert a non-integral / >= 2^53 / non-finite number to a string, or a string longer than 15 bytes to a number, are executed but not compared (number<->text conversion belongs to C16; detected with an instrumented twin of the program, counted in the histogram)",
 		"atoms are plain globals without metatables (one GETGLOBAL, no side effect); comparison errors are compared as a class",
-		"register numbers < 256 and constant indices <= 255 in all generated programs",
+		"register numbers < 256 in all generated programs; constant indices above 255 ARE generated (k-window family)",
 	}
 	run.Trusted = append(run.Trusted, "Go parser (parse.Parse) as the producer of the AST that the modelled compiler functions consume",
-		"IEEE-754 hardware arithmetic and Go math.Mod/math.Pow (fold-vs-runtime compares two uses of the same functions)")
+		"IEEE-754 hardware arithmetic and Go math.Mod/math.Pow (fold-vs-runtime compares two uses of the same functions); the engine's number structure: hardware + - * /, exact fmod, Go's Pow loop for exponents 0..3, strtod for string->number")
 	root := NewRng(uint64(run.Seed))
 	var cases []Case
 	idx := 0
@@ -1122,6 +1424,51 @@ func runC01M(run *Run) {
 		add(mechCase(r, inContext(r.Intn(nCtx), genCond(r, r.Range(3, 6), 3)), 3), "random-deep-condition")
 		hist["random-deep-condition"]++
 	}
+	// (6) arithmetic, unary minus, length, concatenation: bounded-exhaustive operand classes x contexts
+	bin, un, chains := enumArithTrees()
+	keepBin, keepUn, keepChain := 7, 100, 12
+	if thorough {
+		keepBin, keepUn, keepChain = 100, 100, 100
+	}
+	for fi, fam := range []struct {
+		name  string
+		trees []*cnd
+		keep  int
+	}{{"enum-arith-binary", bin, keepBin}, {"enum-arith-unary", un, keepUn}, {"enum-arith-chains", chains, keepChain}} {
+		for ti, t := range fam.trees {
+			for ctx := 0; ctx < nCtx; ctx++ {
+				r := root.Fork(uint64(60_000_000 + fi*10_000_000 + ti*nCtx + ctx))
+				if !r.Chance(fam.keep) {
+					continue
+				}
+				add(mechCaseX(r, inContext(ctx, t), 3), fam.name)
+				hist[fam.name]++
+			}
+		}
+	}
+	// (7) random programs / deep expressions of the full expression language
+	nRandA, nDeepA := 2500, 2500
+	if thorough {
+		nRandA, nDeepA = 25000, 25000
+	}
+	for i := 0; i < nRandA; i++ {
+		r := root.Fork(uint64(100_000_000 + i))
+		nl := r.Range(1, 4)
+		p := &mprog{nlocals: nl, body: genBlockX(r, r.Range(1, 3), nl, r.Range(1, 4), true, 45)}
+		add(mechCaseX(r, p, 4), "random-arith-program")
+		hist["random-arith-program"]++
+	}
+	for i := 0; i < nDeepA; i++ {
+		r := root.Fork(uint64(110_000_000 + i))
+		add(mechCaseX(r, inContext(r.Intn(nCtx), genCondX(r, r.Range(3, 6), 3, 55)), 3), "random-arith-expression")
+		hist["random-arith-expression"]++
+	}
+	// (8) constant-pool windows around the RK limit
+	for _, n := range []int{3, 250, 251, 252, 253, 254, 255, 256, 257, 258, 300} {
+		r := root.Fork(uint64(120_000_000 + n))
+		add(mechCaseX(r, kWindowProg(n), 2), "k-window")
+		hist["k-window"]++
+	}
 	// (5) fold vs run time
 	for _, op := range fixedFoldCases() {
 		add([]Op{op}, "fold-fixed")
@@ -1150,5 +1497,6 @@ func runC01M(run *Run) {
 	for k, v := range hist {
 		run.Hist["family:"+k] = v
 	}
+	run.Hist["runs-not-compared(unsafe number<->string conversion)"] = int(atomic.LoadInt64(&mechSkippedConv))
 	run.Extra["families"] = hist
 }
